@@ -693,6 +693,15 @@ func (c *Ctx) impliedFacts(v ssa.Value, truth bool, depth int) []fact {
 	var own []fact
 	if a, t := condAtom(v, truth); a != "" {
 		own = append(own, fact{a, t})
+		// a condition written out in place also states what the getter computing it would
+		if in, ok := v.(ssa.Instruction); ok && !strings.HasPrefix(a, "call:") && in.Parent() != nil {
+			atomAliasMu.RLock()
+			al, has := atomAlias[in.Parent().Prog][a]
+			atomAliasMu.RUnlock()
+			if has {
+				own = append(own, fact{al.atom, t == al.same})
+			}
+		}
 	}
 	call, ok := v.(*ssa.Call)
 	if !ok || depth <= 0 {
